@@ -226,12 +226,23 @@ Definition verdict (h : list (op * result * obs)) : option nat * option (nat * n
 """ % NVARS
 
 
-def eval_histories(ctx, hists, shard=150):
-    """Returns per history (model_bad_step or None, (spec_bad_step, code) or None)."""
+def eval_histories(ctx, hists, shard=150, extra=None):
+    """Returns per history (model_bad_step or None, (spec_bad_step, code) or None).
+
+    extra = (header, terms): scalar cases evaluated in the same coqc run (quick tier: one
+    Coq start-up instead of two); their mismatch lists are returned as a second result."""
     out = []
-    for s in range(0, len(hists), shard):
+    extra_res = None
+    for s in range(0, max(len(hists), 1), shard):
         chunk = hists[s:s + shard]
-        text = HEADER + HIST_DEFS + "Definition cases : list (list (op * result * obs)) := [\n"
+        text = HEADER
+        if extra is not None and s == 0:
+            text = extra[0] + "Definition scases := [\n" + ";\n".join(extra[1]) + "].\n"
+            text += ("Fixpoint idx_false {A} (f : A -> bool) (i : nat) (l : list A) : list nat :=\n"
+                     "  match l with [] => [] | x :: r => if f x then idx_false f (S i) r else i :: idx_false f (S i) r end.\n"
+                     "Definition M0 := Eval vm_compute in idx_false model_ok 0 scases.\nPrint M0.\n"
+                     "Definition M1 := Eval vm_compute in idx_false spec_ok 0 scases.\nPrint M1.\n")
+        text += HIST_DEFS + "Definition cases : list (list (op * result * obs)) := [\n"
         items = []
         for h in chunk:
             steps = []
@@ -244,6 +255,13 @@ def eval_histories(ctx, hists, shard=150):
         res, rc = ctx.coq_run("c20_hist_%d" % (s // shard), text, timeout=900)
         if rc != 0:
             raise HarnessError("coq evaluation of histories failed:\n" + res[-3000:])
+        if extra is not None and s == 0:
+            extra_res = []
+            for k in (0, 1):
+                mm = re.search(r"M%d\s*=\s*(.*?)\s*:\s*list nat" % k, res, re.S)
+                if not mm:
+                    raise HarnessError("cannot parse coq output:\n" + res[-2000:])
+                extra_res.append([int(t) for t in re.findall(r"\d+", mm.group(1))] if mm.group(1).strip() != "[]" else [])
         m = re.search(r"V\s*=\s*(.*?)\s*:\s*list", res, re.S)
         if not m:
             raise HarnessError("cannot parse coq output:\n" + res[-2000:])
@@ -256,6 +274,8 @@ def eval_histories(ctx, hists, shard=150):
             mb = None if a == "None" else int(re.findall(r"\d+", a)[0])
             sb = None if b == "None" else tuple(int(x) for x in re.findall(r"\d+", b)[:2])
             out.append((mb, sb))
+    if extra is not None:
+        return out, extra_res
     return out
 
 
@@ -304,10 +324,21 @@ def run(ctx):
     ctx.log("scalar grid: %d observations" % len(cases))
     terms, refs = [], []
     ints, flts = set(), set()
+    if ctx.quick():
+        # the whole grid is run on the implementation; inside Coq: every panic, every singular /
+        # map-key store and a seeded sample of the other positions
+        import random
+        rnd = random.Random(ctx.seed)
+        keep = [c for c in cases if c["out"] == "panic" or c["pos"] == "singular"]
+        rest = [c for c in cases if not (c["out"] == "panic" or c["pos"] == "singular")]
+        cases_coq = keep + rnd.sample(rest, min(len(rest), 300))
+    else:
+        cases_coq = cases
     for c in cases:
-        is_map = c["pos"].startswith("map_")
         key = "scalar %s %s %s" % (c["fk"], c["pos"], c["out"])
         dist[key] = dist.get(key, 0) + 1
+    for c in cases_coq:
+        is_map = c["pos"].startswith("map_")
         v = c["val"]
         if v.get("t") == "int":
             ints.add(int(v["z"]))
@@ -333,14 +364,17 @@ def run(ctx):
     header += "Definition i2f_tab : list (Z * Z) := %s.\n" % clist(["(%s, %s)" % (cz(k), cz(v)) for k, v in sorted(i2f.items())])
     header += "Definition f32_tab : list (Z * Z) := %s.\n" % clist(["(%s, %s)" % (cz(k), cz(v)) for k, v in sorted(f32.items())])
     header += SCALAR_DEFS
-    import concurrent.futures as cf
-    pool = cf.ThreadPoolExecutor(max_workers=2)
-    scalar_job = pool.submit(coq_mismatches, ctx, "c20_scalar", header, terms, ["model_ok", "spec_ok"], 3000, 900)
+    if ctx.quick():
+        scalar_job = ("deferred", header, terms)     # evaluated together with the histories: one coqc run
+    else:
+        import concurrent.futures as cf
+        pool = cf.ThreadPoolExecutor(max_workers=2)
+        scalar_job = pool.submit(coq_mismatches, ctx, "c20_scalar", header, terms, ["model_ok", "spec_ok"], 3000, 900)
     return run_histories(ctx, hx, dist, cases, terms, refs, scalar_job)
 
 
 def finish_scalar(ctx, refs, scalar_job):
-    bad_model, bad_spec = scalar_job.result()
+    bad_model, bad_spec = scalar_job if isinstance(scalar_job, list) else scalar_job.result()
     for i in bad_spec:
         c = refs[i]
         if c["out"] == "panic":
@@ -373,11 +407,13 @@ def run_histories(ctx, hx, dist, cases, terms, refs, scalar_job):
             ctx.finding("freeze:via-copy:probe", "frozen message mutated through a shallow copy Message(m): %s" % name, p)
         elif name.startswith("alias-") and p["mutated"]:
             ctx.finding("freeze:via-alias:probe", "frozen message mutated through a message it was assigned into / from: %s" % name, p)
+        elif name.startswith("lossless-") and p["out"] != "ok":
+            ctx.finding("post:probe:" + name, "values written are not all read back (%s): %s" % (name, p["detail"][:200]), p)
         elif name.startswith("self-assign") and p["mutated"]:
             ctx.finding("post:self-assign:probe:" + name, "m.f = m.f changes the field (%s): %s" % (name, p["detail"][:200]), p)
 
     # ------------------------------------------------------------ histories
-    n = 400 if ctx.quick() else 8000
+    n = 400 if ctx.quick() else 20000
     recs = ctx.jsonl([hx, "-mode", "hist", "-seed", str(ctx.seed), "-n", str(n), "-len", "14"], timeout=600)
     hists = [r for r in recs if r["kind"] == "hist"]
     ctx.log("histories: %d, %d with a frozen message changing" % (len(hists), sum(1 for h in hists if "freeze_violation" in h)))
@@ -394,9 +430,9 @@ def run_histories(ctx, hx, dist, cases, terms, refs, scalar_job):
         names = [o["op"] for o in h["ops"][:v["changed_at"] + 1]]
         sig = (v["op"]["op"], "Copy" in names, any(x in ALIAS_OPS for x in names))
         seen_sig.setdefault(sig, []).append(h)
-    budget_h = 40 if ctx.quick() else 200
+    budget_h = 14 if ctx.quick() else 200
     for sig, hs_ in sorted(seen_sig.items(), key=lambda kv: str(kv[0])):
-        for h in hs_[:3]:
+        for h in hs_[:(1 if ctx.quick() else 3)]:
             if budget_h <= 0:
                 break
             budget_h -= 1
@@ -411,11 +447,14 @@ def run_histories(ctx, hx, dist, cases, terms, refs, scalar_job):
                 {"ops": ops, "violation": rec["freeze_violation"], "replay_cmd": "c20 -mode replay -file <ops.json>"})
     ctx.log("shrinking done")
     # Coq: model correspondence and the specification on a sample
-    sample = hists if len(hists) <= 900 else hists[:900]
+    sample = hists if len(hists) <= 2400 else hists[:2400]
     if ctx.quick():
-        sample = hists[:80]
+        sample = hists[:35]
     cleaned = [clean_history(h) for h in sample]
-    verdicts = eval_histories(ctx, cleaned)
+    if isinstance(scalar_job, tuple):
+        verdicts, scalar_job = eval_histories(ctx, cleaned, extra=(scalar_job[1], scalar_job[2]))
+    else:
+        verdicts = eval_histories(ctx, cleaned)
     ctx.log("history evaluation done")
     nmodel = nspec = 0
     for h, steps, (mb, sb) in zip(sample, cleaned, verdicts):
